@@ -119,7 +119,7 @@ func (s *shape) values() []reflect.Value {
 	case "nstring":
 		return []reflect.Value{reflect.ValueOf(c11Name("a")), reflect.ValueOf(c11Name("")), reflect.ValueOf(c11Name("b"))}
 	case "nstrs":
-		return []reflect.Value{reflect.ValueOf(c11Names{"a"}), reflect.ValueOf(c11Names{}), reflect.ValueOf(c11Names{"a", "b"}), reflect.ValueOf(c11Names(nil))}
+		return []reflect.Value{reflect.ValueOf(c11Names{"a"}), reflect.ValueOf(c11Names{}), reflect.ValueOf(c11Names{"a", "b"}), reflect.ValueOf(c11Names(nil)), reflect.ValueOf(c11Names{"a", "a"}), reflect.ValueOf(c11Names{"a", "b", "a"})}
 	}
 	cv := s.child.values()
 	first := func(n int) []reflect.Value {
@@ -143,7 +143,12 @@ func (s *shape) values() []reflect.Value {
 		if len(f) > 0 {
 			out = append(out, reflect.Append(reflect.MakeSlice(t, 0, 1), f[0]))
 		}
+		if len(f) > 0 {
+			// the same value twice (and, below, again after another one): every element counts
+			out = append(out, reflect.Append(reflect.MakeSlice(t, 0, 2), f[0], f[0]))
+		}
 		if len(f) > 1 {
+			out = append(out, reflect.Append(reflect.MakeSlice(t, 0, 3), f[0], f[1], f[0]))
 			out = append(out, reflect.Append(reflect.MakeSlice(t, 0, 2), f[0], f[1]))
 			out = append(out, reflect.Append(reflect.MakeSlice(t, 0, 2), f[1], f[0]))
 		}
